@@ -140,6 +140,7 @@ func specAssert(b bool) {
 //@   ensures[nonEmpty] ret1 == nil ==> len(ret0) > 0
 //@   ensures[canonicalCase] ret1 == nil ==> spec_canonCase(ret0)
 //@   ensures[noPlusLocal] ret1 == nil && a.Config.MailboxNaming == config.LocalNaming ==> spec_noPlus(ret0)
+//@   ensures[addressableLocal] ret1 == nil && a.Config.MailboxNaming == config.LocalNaming ==> ret0[len(ret0)-1] != '.'
 //@   serves C04
 
 //@ func (*Addressing).NewRecipient
